@@ -464,7 +464,13 @@ def _execute(sc, root, want_texts):
                 objstate[o["$obj"]].update(o.get("$set", {}))
                 # the key is the literal content the host has put into that dictionary (keys it never
                 # set stay absent: what an absent key defaults to is the compiler's business)
-                o = dict(objstate[o["$obj"]], **{"$literal": True})
+                believed = objstate[o["$obj"]]
+                if isinstance(ob.get("opts_seen"), dict) and ob["opts_seen"] != believed:
+                    # the compiler itself has changed the caller's dictionary in an earlier job: the
+                    # content at hand-over is what this job asked for
+                    bump("probe_compiler_changed_the_hosts_options_object")
+                    believed = ob["opts_seen"]
+                o = dict(believed, **{"$literal": True})
                 bump("jobs_with_a_reused_options_object")
             key = _key(sc, i, o)
             if "import " in sc["sources"][i]:
